@@ -210,6 +210,11 @@ C13_NoPhantomObs == phOK
 RealPodView == [p \in DOMAIN real.pods |-> [st |-> real.pods[p].st, acc |-> real.pods[p].acc]]
 C14_JobObs   == \A j \in DOMAIN real.jobs : JobCounters(real.jobs[j]) = TruthJob(RealPodView, j)
 C14_QueueObs == \A q \in DOMAIN real.queues : QueueCounters(real.queues[q]) = TruthQueue(RealPodView, q)
+\* the accepted GPU quota of a pod that holds or is nominated to resources - what the queues are charged with - is
+\* the one its CURRENT node gives it, recomputed from the request and the node's device memory (a gpu-memory
+\* request is a different portion on nodes with different devices)
+C14_AcceptedObs == \A p \in DOMAIN real.pods :
+   (ActiveAllocated(real.pods[p].st) /\ real.pods[p].node \in Nodes) => real.pods[p].acc = AccQ(p, real.pods[p].node)
 \* the vector form of a quantity equals its structured form (both logged)
 C14_VectorObs ==
   /\ \A j \in DOMAIN real.jobs : real.jobs[j].vg = real.jobs[j].ag /\ real.jobs[j].vc = real.jobs[j].ac
@@ -229,14 +234,14 @@ C14_NodeBaseObs ==
 
 \* StopOn selects the properties whose violation ends a scenario: "C13", "C14" or "all"
 Healthy == /\ (StopOn # "C14") => (C13_RollbackObs /\ C13_DiscardObs /\ C13_CommitNetObs /\ C13_UnevictObs /\ C13_NoPhantomObs)
-           /\ (StopOn # "C13") => (C14_JobObs /\ C14_QueueObs /\ C14_VectorObs /\ C14_NodeBaseObs)
+           /\ (StopOn # "C13") => (C14_JobObs /\ C14_QueueObs /\ C14_AcceptedObs /\ C14_VectorObs /\ C14_NodeBaseObs)
 
 (***************************************************************************)
 (* Drift monitors: model prediction vs real                                *)
 (***************************************************************************)
 \* after a property violation (of either family) the real code has left the specified behaviour: the model's
 \* predictions are then not comparable any more (no drift verdict for the rest of the scenario)
-AllC == C13_RollbackObs /\ C13_DiscardObs /\ C13_CommitNetObs /\ C13_UnevictObs /\ C13_NoPhantomObs /\ C14_JobObs /\ C14_QueueObs /\ C14_VectorObs /\ C14_NodeBaseObs
+AllC == C13_RollbackObs /\ C13_DiscardObs /\ C13_CommitNetObs /\ C13_UnevictObs /\ C13_NoPhantomObs /\ C14_JobObs /\ C14_QueueObs /\ C14_AcceptedObs /\ C14_VectorObs /\ C14_NodeBaseObs
 Clean == sync /\ ~taint /\ AllC
 D_Pods   == Clean => RPods(real) = pod
 D_Nodes  == Clean => RNodes(real) = node
@@ -270,7 +275,7 @@ AllD == D_Pods /\ D_Nodes /\ D_Jobs /\ D_Queues /\ D_Ops /\ D_Msg /\ D_NoErr /\ 
 Report ==
   /\ Viol("C13_RollbackObs", C13_RollbackObs) /\ Viol("C13_DiscardObs", C13_DiscardObs) /\ Viol("C13_CommitNetObs", C13_CommitNetObs)
   /\ Viol("C13_UnevictObs", C13_UnevictObs) /\ Viol("C13_NoPhantomObs", C13_NoPhantomObs)
-  /\ Viol("C14_JobObs", C14_JobObs) /\ Viol("C14_QueueObs", C14_QueueObs) /\ Viol("C14_VectorObs", C14_VectorObs)
+  /\ Viol("C14_JobObs", C14_JobObs) /\ Viol("C14_QueueObs", C14_QueueObs) /\ Viol("C14_AcceptedObs", C14_AcceptedObs) /\ Viol("C14_VectorObs", C14_VectorObs)
   /\ Viol("C14_NodeBaseObs", C14_NodeBaseObs)
   /\ drifted \/ ( /\ Drift("D_Pods", D_Pods) /\ Drift("D_Nodes", D_Nodes) /\ Drift("D_Jobs", D_Jobs) /\ Drift("D_Queues", D_Queues)
                   /\ Drift("D_Ops", D_Ops) /\ Drift("D_Msg", D_Msg) /\ Drift("D_NoErr", D_NoErr) /\ Drift("D_CommitErr", D_CommitErr)
